@@ -40,6 +40,7 @@ func checkC09(r *Report, p *Program) {
 	// a failed sync comes back: error ⇒ rate-limited requeue, never Forget (shared with C12)
 	r12_3(r, p)
 	r09_10(r, p)
+	objectMapContracts(r, p, "R09.11")
 	// a failed claim / revision write stops the sync before children are reconciled from an incomplete view (R12.1 on the revision code)
 	errorRule(r, p, "R09.9", 8, func(f *ssa.Function) bool {
 		file := p.File(f)
